@@ -4,7 +4,7 @@
                        pulse and every t in [0, total) the program plays  at_ pcs c t  (half-open junctions). *)
 From Coq Require Import ZArith QArith List Bool.
 Require Import QV.C01.Model QV.C01.Spec QV.C01.Proofs QV.C01.ProofsDefs QV.C01.Proofs_trafo QV.C01.Proofs_table
-        QV.C01.Proofs_comp QV.C01.Proofs_atoms QV.C01.Proofs_main QV.C01.Proofs_sampling QV.C01.Proofs_leaves QV.C01.Proofs_atoms2.
+        QV.C01.Proofs_comp QV.C01.Proofs_atoms QV.C01.Proofs_main QV.C01.Proofs_sampling QV.C01.Proofs_leaves QV.C01.Proofs_atoms2 QV.C01.Proofs_chans.
 Import ListNotations.
 Open Scope Q_scope.
 
@@ -197,14 +197,14 @@ Proof. exact sampling_sound. Qed.
 Print Assumptions C01_sampling_loops.
 
 (* the programs built by create_program (every atom and node kind, incl. nested transformations and parallel channels):
-   `_partial` because to_waveform's success and the common channel set of the leaves are hypotheses (the model accepts
-   sequences of templates with different channels, which qupulse rejects at construction) *)
-Theorem C01_sampling_partial : forall p env cm prog w C,
+   whenever to_waveform succeeds, get_sampled on every channel of the resulting waveform equals the program meaning.
+   `_partial` because to_waveform's success is a hypothesis (the model accepts sequences of templates with different
+   channels, which qupulse rejects at construction) and the table guard is inherited from the atom lemma *)
+Theorem C01_sampling_partial : forall p env cm prog w,
   guard_C01_tables p (SDict env) (cm_of cm) = true ->
   create_program p env cm None = Ok (Some prog) -> to_waveform prog = Ok w ->
-  Forall (fun x => chans_same (wchans x) C) (flatten prog) ->
-  forall c t, cmem c C = true -> 0 <= t -> t < loop_dur prog -> oeq (sampled prog c t) (play prog c t).
-Proof. exact sampling_create_program_all. Qed.
+  forall c t, cmem c (wchans w) = true -> 0 <= t -> t < loop_dur prog -> oeq (get_sampled w c t) (play prog c t).
+Proof. exact sampling_create_program_chans. Qed.
 Print Assumptions C01_sampling_partial.
 
 (* why C01_sampling_statement needs a well-formedness hypothesis in this model: a sequence of two templates over
